@@ -1,0 +1,6 @@
+//go:build verif
+
+package tor
+
+// VerifRange returns the byte range of the torrent this reader covers.
+func (r *Reader) VerifRange() (offset, length int64) { return r.offset, r.length }
